@@ -11,3 +11,5 @@ UNDECIDED = "the 50,000-base window accumulator ValueIter::next (per-base sums, 
 ASSUMPTIONS = [K.A_PRED, "merge_into is only called with truly overlapping non-empty values (its callers check both ends)"]
 OBLIGATIONS = [K.MERGE_QUERY, K.LOWERCASE, K.OUTPUT_TYPE, K.TRANSFORM, K.MERGE_INTO, K.FILL, K.WIG_KEEP]
 OBLIGATIONS = OBLIGATIONS + [K.WINDOW]
+# type-resolved rules over the MIR facts (tools/bt-mir)
+OBLIGATIONS = OBLIGATIONS + [K.MIR_COORD_ARITH]
